@@ -159,11 +159,19 @@ pub fn differential_case(rec: &mut Rec, c: &hostile::Case) {
       }
     }
     (None, Some(Outcome::Rejected)) => rec.ev("both_reject"),
-    (Some(_), Some(Outcome::Rejected)) => rec.violation(
-      &format!("valid-rejected:{}:{}", tname, kind),
-      format!("{} rejected an input that is valid under the documented layout ({})", tname, c.desc),
-      json!({"case": c.to_json()}),
-    ),
+    (Some(canon), Some(Outcome::Rejected)) => {
+      if crate::exec::input_is_canonical(c, &canon) {
+        rec.violation(
+          &format!("valid-rejected:{}:{}", tname, kind),
+          format!("{} rejected an input that is the canonical encoding of a value under the documented layout ({})", tname, c.desc),
+          json!({"case": c.to_json()}),
+        )
+      } else {
+        // tolerated-but-not-canonical forms (ignored trailing bytes / partial element): the
+        // statement binds a decoder only when it accepts
+        rec.ev("noncanonical_form_rejected")
+      }
+    }
     (None, Some(Outcome::Accepted(re))) => rec.violation(
       &format!("malformed-accepted:{}:{}", tname, kind),
       format!("{} accepted a structurally invalid input ({})", tname, c.desc),
